@@ -1341,4 +1341,10 @@ def convert_input_data(obj, rec=None):
     if rec is None:
         rec = convert_input_data''',
   'id()-keyed memo of converted values')
+V('13.6', 'C13', 'R13a', 'fire', COL,
+  '    yielded = False\n    for i, t in enumerate(collection):\n        if (count >= 0 and position <= i < position + count\n                or count < 0 and i >= position):\n            if not yielded:\n                yielded = True\n                yield value\n        else:\n            yield t\n', '    indexed = enumerate(collection)\n    for i, t in indexed:\n        if i < position:\n            yield t\n    yield value\n    for i, t in indexed:\n        if count >= 0 and i >= position + count:\n            yield t\n',
+  'second loop over an enumerate() cursor the first loop ran to its end')
+V('13.6t', 'C13', '', 'silent', COL,
+  '    yielded = False\n    for i, t in enumerate(collection):\n        if (count >= 0 and position <= i < position + count\n                or count < 0 and i >= position):\n            if not yielded:\n                yielded = True\n                yield value\n        else:\n            yield t\n', '    indexed = enumerate(collection)\n    for i, t in indexed:\n        if (count >= 0 and position <= i < position + count\n                or count < 0 and i >= position):\n            yield value\n            break\n        yield t\n    else:\n        return\n    for i, t in indexed:\n        if not (count >= 0 and position <= i < position + count\n                or count < 0 and i >= position):\n            yield t\n',
+  'twin: the first loop breaks out, the second continues the same cursor')
 VARIANTS = [v for v in VARIANTS if v is not None]
